@@ -505,11 +505,27 @@ func concTypes() []concType {
 				{fop("cache", "new", 4, 0), fop("cache", "set", 0, 1, 0), fop("cache", "tick", 5)}},
 			ops: func(th, i int) []tt.Op {
 				v := th*10 + i
-				return []tt.Op{fop("cache", "set", 0, v, 0), fop("cache", "set", 1, v, 0), fop("cache", "get", 0), fop("cache", "update", 0, v, 0), fop("cache", "delete", 0), fop("cache", "count"),
+				return []tt.Op{fop("cache", "set", 0, v, 0), fop("cache", "set", 1, v, 0), fop("cache", "get", 0), fop("cache", "update", 0, v, 0), fop("cache", "delete", 0, cacheDelAbsent()), fop("cache", "count"),
 					fop("cache", "delexp")} // what the background cleanup does, as a call
 			},
 			post: []tt.Op{fop("cache", "count"), fop("cache", "get", 0), fop("cache", "get", 1)}},
 	}
+}
+
+// cacheDelAbsent asks the code under test, sequentially, what Delete of a missing key answers (0: no error,
+// 1: an error).  The statement of the cache leaves that open; linearizability is relative to it.
+var cacheDelAbsentV = -1
+
+func cacheDelAbsent() int {
+	if cacheDelAbsentV < 0 {
+		vtime.Enable(false)
+		c := cache.New[string, string](ecDur(-1), 0)
+		cacheDelAbsentV = 0
+		if c.Delete(ecKey(7)) != nil {
+			cacheDelAbsentV = 1
+		}
+	}
+	return cacheDelAbsentV
 }
 
 type concDirected struct {
